@@ -29,7 +29,7 @@ REQUIRED = {"trees_compared": 400, "conditional_includes": 400, "else_branches":
             "active_errors": 15, "inactive_errors": 60, "nested_includes": 200, "repeated_names": 100,
             "whitespace_variants": 400, "independence_checks": 100, "conditional_type_entries": 100, "max_depth": 3,
             "after_moleculetype_cases": 20, "relative_path_readings": 400,
-            "repeated_molecule_includes": 30, "readings_through_a_symbolic_link": 100}
+            "repeated_molecule_includes": 30, "readings_through_a_symbolic_link": 100, "readings_with_absolute_include_paths": 100}
 TYPES = ["a", "b", "c"]
 MACROS = ["FOO", "BAR", "BAZ"]
 
@@ -428,6 +428,14 @@ def run_case(cid, rng, workdir):
         key = "conditional-include-after-moleculetype" if after else "differs-from-flattened:%s" % "+".join(diff)
         violation(res, key, "reading the tree differs from reading the flattened file in %s:%s" % (diff, detail), w)
         return res
+    # files of the same relative names in the directory the program is started from must never be read instead of the
+    # ones next to the including file: they abort reading if touched
+    for p_ in files:
+        if p_ != "t.top":
+            dp = os.path.join(workdir, p_)
+            os.makedirs(os.path.dirname(dp), exist_ok=True)
+            with open(dp, "w") as fh:
+                fh.write("#error decoy file in the start directory was read\n")
     # the same tree addressed by a bare / relative file name from other working directories
     here = os.getcwd()
     try:
@@ -442,6 +450,21 @@ def run_case(cid, rng, workdir):
                           "reading the same tree as %r from %s gives %s" % (rel, "its own directory" if cwd == tree_root else "the parent directory", what), w)
     finally:
         os.chdir(here)
+    # includes written with absolute paths in the top-level file
+    if len(files) >= 2 and rng.random() < 0.3:
+        import re as _re
+        abs_root = os.path.join(workdir, "abstree")
+        files_abs = dict(files)
+        files_abs["t.top"] = [_re.sub(r'^(\s*#include\s+")([^"/][^"]*)(")', lambda m_: m_.group(1) + os.path.join(abs_root, m_.group(2)) + m_.group(3), ln)
+                              for ln in files["t.top"]]
+        if files_abs["t.top"] != files["t.top"]:
+            write_tree(files_abs, abs_root)
+            st_a, s_a, _e6 = read(os.path.join(abs_root, "t.top"))
+            bump(res, "readings_with_absolute_include_paths")
+            if st_a != "ok" or s_a != s_tree:
+                what = s_a if st_a != "ok" else [k for k in s_tree if s_tree[k] != s_a[k]]
+                violation(res, "absolute-include-path-not-honoured", "the same tree with absolute paths in the #include lines of the "
+                          "top-level file gives %s" % (what,), w)
     # the topology reached through a symbolic link in another directory: includes are relative to the including file as
     # it was named, i.e. to the directory of the link (the files next to the link's target are made unreadable)
     if len(files) >= 2 and rng.random() < 0.3:
@@ -482,7 +505,14 @@ def run_case(cid, rng, workdir):
                   dict(w, noisy={k: open(os.path.join(noisy_root, k)).read() for k in files}))
     # instance independence
     from polyply.src.topology import Topology
-    t = Topology.from_gmx_topfile(name="x", path=os.path.join(tree_root, "t.top"))
+    try:
+        t = Topology.from_gmx_topfile(name="x", path=os.path.join(tree_root, "t.top"))
+    except Exception as err:      # noqa
+        if type(err).__name__ == "CaseTimeout":
+            raise
+        violation(res, "include-path-not-relative-to-including-file:file-of-the-start-directory-read",
+                  "a later reading of the same tree stopped with %s: %s" % (type(err).__name__, str(err)[:120]), w)
+        return res
     byname = {}
     for i, m in enumerate(t.molecules):
         byname.setdefault(m.mol_name, []).append(i)
